@@ -314,7 +314,7 @@ def materialize(engine: Engine, B: Builder, st: State, value, model, seen=None):
             return {"k": "bytes", "v": [ev(x) if is_sym(x) else x for x in v.items]}
         if isinstance(v, SymSeq):
             n = ev(v.length) if is_sym(v.length) else v.length
-            n = max(0, min(int(n), 1 << 22))
+            n = max(0, min(int(n), 200000))
             off = ev(v.off) if is_sym(v.off) else v.off
             data = []
             # evaluate the array pointwise; default for unconstrained cells is 0
